@@ -687,10 +687,14 @@ class CausalInference(object):
                 var: state for var, state in zip(adjustment_set, state_comb)
             }
             evidence = {**do, **adj_evidence}
-            values.append(
-                infer.query(variables, evidence=evidence, show_progress=False)
-                * p_z.get_value(**adj_evidence)
-            )
+            p_adj = p_z.get_value(**adj_evidence)
+            # A stratum of probability zero contributes nothing to the sum and
+            # p(variables | do, z) is undefined (0/0 = nan) for it.
+            if p_adj != 0:
+                values.append(
+                    infer.query(variables, evidence=evidence, show_progress=False)
+                    * p_adj
+                )
 
             if show_progress and config.SHOW_PROGRESS:
                 pbar.update(1)
